@@ -87,7 +87,7 @@ def post(check, pairs, stats):
 
 CFG = {
     "id": "C08",
-    "lean_modules": ["GeomV.C08.Proofs", "GeomV.C08.ProofsConic", "GeomV.C08.ProofsTmerc", "GeomV.C08.ProofsGeodetic", "GeomV.C08.ProofsKrovak", "GeomV.C08.ProofsUnique", "GeomV.C08.ProofsConverge", "GeomV.C08.ProofsHelmert", "GeomV.C08.ProofsPipeline", "GeomV.C08.ProofsMore", "GeomV.C08.ProofsAea", "GeomV.C08.ProofsAea2", "GeomV.C08.ProofsPipeline2", "GeomV.C08.ProofsBounds", "GeomV.C08.Ties", "GeomV.C08.TiesCommon", "GeomV.C08.TiesReal", "GeomV.C08.TiesGuards", "GeomV.C08.TiesGuards2", "GeomV.C08.TiesRoute", "GeomV.C08.TiesAxis", "GeomV.C08.TiesShape"],
+    "lean_modules": ["GeomV.C08.Proofs", "GeomV.C08.ProofsConic", "GeomV.C08.ProofsTmerc", "GeomV.C08.ProofsGeodetic", "GeomV.C08.ProofsKrovak", "GeomV.C08.ProofsUnique", "GeomV.C08.ProofsConverge", "GeomV.C08.ProofsHelmert", "GeomV.C08.ProofsPipeline", "GeomV.C08.ProofsMore", "GeomV.C08.ProofsAea", "GeomV.C08.ProofsAea2", "GeomV.C08.ProofsPipeline2", "GeomV.C08.ProofsBounds", "GeomV.C08.ProofsCm", "GeomV.C08.Ties", "GeomV.C08.TiesCommon", "GeomV.C08.TiesReal", "GeomV.C08.TiesGuards", "GeomV.C08.TiesGuards2", "GeomV.C08.TiesRoute", "GeomV.C08.TiesAxis", "GeomV.C08.TiesShape"],
     "pregen": pregen,
     "post": post,
     "exe": "geomv_c08",
@@ -133,7 +133,9 @@ CFG = {
         "C08_transform_aea_ell", "C08_transform_krovak", "within_degrees",
         # phase 4: the judge's acceptance thresholds for the known findings as instances of theorems
         "C08_helmert_threshold", "normalAt_unit", "geodeticToGeocentric_eq", "C08_geocentric_affine_height", "C08_shift_affine",
-        "C08_shift_translation", "C08_tangent_part_sq", "C08_height_loss_exact"]] + [
+        "C08_shift_translation", "C08_tangent_part_sq", "C08_height_loss_exact",
+        # phase 4 (ProofsCm): the Albers 1 cm clause in the property's words, TM/UTM on the central meridian, and the two factors of heightLossBound
+        "C08_aea_reproject_1cm", "C08_tmerc_central_meridian_reproject", "C08_tilt_le", "ellipsoid_support", "dist_expand", "C08_height_le_distance"]] + [
         # tie T1: model = definitions regenerated from the current Go source (rfl)
         T + "Ties." + n for n in ["tie_initMerc", "tie_fwdMerc", "tie_invMerc", "tie_initLcc", "tie_fwdLcc", "tie_invLcc",
                                   "tie_initAea", "tie_fwdAea", "tie_invAea", "tie_aeaPhi1zStep", "tie_initEqdc", "tie_fwdEqdc",
